@@ -153,6 +153,8 @@ func toCodeBasic(t types.BasicKind) *jen.Statement {
 		return jen.Uint32()
 	case types.Uint64:
 		return jen.Uint64()
+	case types.Uintptr:
+		return jen.Uintptr()
 	case types.Bool:
 		return jen.Bool()
 	case types.Complex128:
